@@ -37,8 +37,17 @@ fn strategy() -> impl Strategy<Value = Case> {
         (prop::collection::vec(any::<u16>(), 4), any::<bool>()),
         prop::option::weighted(0.75, 0usize..=17),
         prop::bool::weighted(0.04),
+        any::<u8>(),
     )
-        .prop_map(|(mut spec, (opts, axis_order, take, use_keep), (pdraws, individuals), precision, zero_total)| {
+        .prop_map(|(mut spec, (opts, axis_order, take, use_keep), (pdraws, individuals), precision, zero_total, big)| {
+            // one case in twelve: more than 4096 (or 8192) entries, the generated values tiled
+            if big % 12 == 0 {
+                const BIG: [&[usize]; 8] = [&[4097], &[4200], &[65, 64], &[66, 65], &[17, 17, 15], &[9, 8, 8, 9], &[8200], &[3, 2731]];
+                let shape = BIG[(big as usize / 12) % BIG.len()].to_vec();
+                let n: usize = shape.iter().product();
+                let base = spec.values.clone();
+                spec = Spec::new(shape, (0..n).map(|i| base[(i + i / base.len()) % base.len()]).collect());
+            }
             let d = spec.dims();
             if zero_total {
                 for v in spec.values.iter_mut() {
@@ -127,7 +136,10 @@ fn eval(ctx: &Ctx, case: &Case) -> Verdict {
         steps.push(Step::Marginalize(args));
     }
     if let Some(draws) = &case.project {
-        let mut to: Vec<usize> = model.shape.iter().enumerate().map(|(j, len)| 1 + pick_idx(draws[j], *len)).collect();
+        // large inputs are projected to small targets (the model is the naive double sum over all
+        // pairs of source and target cells)
+        let cap = if model.values.len() > 2000 { (40usize / model.dims().max(1)).max(3) } else { usize::MAX };
+        let mut to: Vec<usize> = model.shape.iter().enumerate().map(|(j, len)| 1 + pick_idx(draws[j], (*len).min(cap))).collect();
         if case.individuals {
             for t in to.iter_mut() {
                 if *t % 2 == 0 {
@@ -253,6 +265,9 @@ fn eval(ctx: &Ctx, case: &Case) -> Verdict {
     let mut pass = Pass::new().nontrivial(steps.len() >= 2 && noncommuting);
     pass.add_label(format!("options={}", steps.len()));
     pass.add_label(if case.precision.is_some() { "text-output" } else { "npy-output" });
+    if case.spec.values.len() > 4096 {
+        pass.add_label("more-than-4096-entries");
+    }
     if case.zero_total {
         pass.add_label("zero-total");
     }
@@ -264,7 +279,7 @@ fn eval(ctx: &Ctx, case: &Case) -> Verdict {
 pub fn check(ctx: &Ctx) -> Check {
     let parts: Vec<Box<dyn Part>> = vec![Box::new(RandomPart {
         name: "option-subsets",
-        rule: "spectra with 1..4 axes (integer / real / sparse values, 4% with zero total) x all 2^4 option subsets x an admissible marginalization set (as -m or -M, any naming order) and projection target (as --project-shape or -p, in the post-marginalization axes) x final output {text at precision 0..17, npy}: (i) the same options applied one per `view` invocation in the documented order, stages connected losslessly with -O npy, must give byte-identical final output; (ii) every cell within tolerance of the harness's model applied in the order marginalize > project > mask > normalize; (iii) mask alone zeroes exactly the first and last cell; (iv) normalize alone sums to one and preserves ratios; (v) no options reproduces the input to the printed precision; non-trivial = >=2 options including a non-commuting pair (mask+normalize, mask+project, marginalize+project with unequal axes); the 16 subsets are listed as labels",
+        rule: "spectra with 1..4 axes (one in twelve with 4 097 .. 8 200 entries) (integer / real / sparse values, 4% with zero total) x all 2^4 option subsets x an admissible marginalization set (as -m or -M, any naming order) and projection target (as --project-shape or -p, in the post-marginalization axes) x final output {text at precision 0..17, npy}: (i) the same options applied one per `view` invocation in the documented order, stages connected losslessly with -O npy, must give byte-identical final output; (ii) every cell within tolerance of the harness's model applied in the order marginalize > project > mask > normalize; (iii) mask alone zeroes exactly the first and last cell; (iv) normalize alone sums to one and preserves ratios; (v) no options reproduces the input to the printed precision; non-trivial = >=2 options including a non-commuting pair (mask+normalize, mask+project, marginalize+project with unequal axes); the 16 subsets are listed as labels",
         cases: ctx.tier.pick(3000, 100_000),
         strategy: Box::new(|| strategy().boxed()),
         eval: Box::new(eval),
